@@ -479,6 +479,7 @@ def install(w):
 
     install_datetime(w)
     install_calendar(w)
+    install_format_stub(w)
 
 
 def _kwbind(names, defaults, args, kw, line):
@@ -1001,7 +1002,55 @@ def install_datetime(w):
     w.reg(meth(ZI, "fromutc"), zi_fromutc, "ZoneInfo.fromutc")
 
 
+class SymRow:
+    """one week row of calendar.monthcalendar: entry c (Monday = 0) is the day number or 0 outside the month"""
+
+    _symseq = True
+
+    def __init__(self, r, wd0, dim):
+        self.r, self.wd0, self.dim = r, wd0, dim
+
+    def getitem(self, ex, st, idx, line):
+        idx = sym.num(idx)
+        ok = sym.And(sym.ge(idx, -7), sym.lt(idx, 7))
+        if ok is not True:
+            if not raise_if(ex, st, sym.Not(ok), IndexError, line, "row"):
+                return
+        c = sym.If(sym.lt(idx, 0), sym.add(idx, 7), idx)
+        v = sym.add(sym.sub(sym.add(sym.mul(7, self.r), c), self.wd0), 1)
+        yield st, sym.If(sym.And(sym.ge(v, 1), sym.le(v, self.dim)), v, 0)
+
+
+class SymMonthMatrix:
+    """calendar.monthcalendar(y, m): ceil((dim + weekday(1st)) / 7) week rows, Monday first"""
+
+    _symseq = True
+
+    def __init__(self, y, m):
+        self.wd0 = spec.weekday0(y, m, 1)
+        self.dim = spec.dim(y, m)
+        self.rows = sym.fdiv(sym.add(sym.add(self.dim, self.wd0), 6), 7)
+
+    def getitem(self, ex, st, idx, line):
+        if is_sym(idx) or not isinstance(idx, int):
+            raise Unsupported(f"symbolic week index into monthcalendar at line {line}")
+        # a month spans 4..6 rows: indices -4..3 always exist
+        if not -4 <= idx <= 3:
+            raise Unsupported(f"week index {idx} into monthcalendar at line {line}")
+        r = idx if idx >= 0 else sym.add(self.rows, idx)
+        yield st, SymRow(r, self.wd0, self.dim)
+
+
 def install_calendar(w):
+    def h_monthcalendar(ex, st, args, kw, line):
+        y, m = args
+        ok = sym.And(sym.ge(m, 1), sym.le(m, 12), spec.valid_year(y))
+        if not raise_if(ex, st, sym.Not(ok), ValueError, line, "mc"):
+            return
+        yield st, SymMonthMatrix(y, m)
+
+    w.reg(calendar.monthcalendar, h_monthcalendar, "calendar.monthcalendar")
+
     w.reg(calendar.isleap, pure(lambda y: spec.leap(y)), "calendar.isleap")
 
     def h_monthrange(ex, st, args, kw, line):
@@ -1012,3 +1061,25 @@ def install_calendar(w):
         yield st, (spec.weekday0(y, m, 1), spec.dim(y, m))
 
     w.reg(calendar.monthrange, h_monthrange, "calendar.monthrange")
+
+
+class YearMonthStr:
+    """abstract result of .format("YYYY-MM") / .format("%Y-%M"): a string that determines (year, month) and is
+    determined by them (assumed here; the formatter itself is verified under C08)"""
+
+    _symstr = True
+
+    def __init__(self, year, month):
+        self.year, self.month = year, month
+
+
+def install_format_stub(w):
+    from pendulum.mixins.default import FormattableMixin
+
+    def h_format(ex, st, args, kw, line):
+        self, fmt = args[0], args[1]
+        if fmt not in ("YYYY-MM", "%Y-%M"):
+            raise Unsupported(f"format({fmt!r}) inside verified code at line {line}")
+        yield st, YearMonthStr(self.year, self.month)
+
+    w.reg(FormattableMixin.__dict__["format"], h_format, "FormattableMixin.format('YYYY-MM') (assumed injective in year, month; see C08)")
